@@ -82,9 +82,9 @@ theorem inv_step {s : Net} {op : Op} (hmh : s.maxHops > 0) (hI : Inv s) : Inv (s
     | ann hint hop ha hd hadv =>
       have h := mem_announceAdvs hadv
       exact ⟨(fun hw => by rw [h.wd] at hw; cases hw), by rw [h.path]; simp; omega⟩
-    | wdr hop ha hcidr hd hadv =>
-      rw [hadv]
-      exact ⟨by simp [withdrawAdv], by simp [withdrawAdv]⟩
+    | wdr hint hop ha hcidr hd hadv =>
+      have h := mem_withdrawAdvs hadv
+      exact ⟨(fun _ => h.path), by rw [h.path]; simp⟩
     | fwd a m hm hl ha hb hd hne hns hself hseen hsb hlim hwire hadv =>
       rw [hadv]
       obtain ⟨hwp, _⟩ := hI.flight _ hm
@@ -151,7 +151,7 @@ theorem C15_no_wrap (n mh : Nat) (L : Node → List RAd) (ops : List Op) :
     | ann hint hop ha hd hadv =>
       have h := mem_announceAdvs hadv
       rw [h.path, h.seenBy]; simp
-    | wdr hop ha hcidr hd hadv => rw [hadv] at hw; simp [withdrawAdv] at hw
+    | wdr hint hop ha hcidr hd hadv => rw [(mem_withdrawAdvs hadv).wd] at hw; cases hw
     | fwd a m hm hl ha hb hd hne hns hself hseen hsb hlim hwire hadv =>
       have hw' : m.wd = false := by rw [hadv, fwdAdv_wd] at hw; exact hw
       obtain ⟨h1, h2⟩ := hwire hw'
